@@ -457,6 +457,19 @@ class Rewriter:
                     out.append(T('raw', rep, t.start))
                     k = nxt(k) + 1
                     continue
+            # R10b: `MAP[&KEY]` -> `*MAP.index_(&KEY)` (HashMap indexing; Vec indexing never takes a reference)
+            if is_p(t, '[') and nxt(k) < n and is_p(toks[nxt(k)], '&') and prv_out() is not None and is_id(prv_out()):
+                e = match_close(toks, k)
+                j = len(out) - 1
+                while j >= 0 and out[j].kind in ('ws', 'comment', 'doc'):
+                    j -= 1
+                name = out[j].text
+                inner = text_of(self.basic(toks[k + 1:e], in_const))
+                self.rec('R10', '%s[%s]' % (name, inner), '*%s.index_(%s)' % (name, inner))
+                del out[j:]
+                out.append(T('raw', '(*%s.index_(%s))' % (name, inner), t.start))
+                k = e + 1
+                continue
             # R4-join (expression position): `<postfix chain>.join(sep)` -> Str::opaque()
             if is_id(t, 'join') and prv_out() is not None and is_p(prv_out(), '.') and nxt(k) < n and is_p(toks[nxt(k)], '('):
                 e = match_close(toks, nxt(k))
@@ -801,6 +814,10 @@ def parse_spec(path, into=None):
                     cur.loops[k]['iter'] = p[5:]
                 if p == 'clone_elems':
                     cur.loops[k]['clone_elems'] = True
+                if p == 'indexed':
+                    cur.loops[k]['indexed'] = True
+                if p == 'map_entries':
+                    cur.loops[k]['map_entries'] = True
             mode, target = ('loop', k), None
             continue
         if st.startswith('closure ') and mode != 'body':
